@@ -26,14 +26,44 @@ def prop(pid, rules, explanation, claim, not_decided, technique=None):
         PROPS[pid]['technique'] = technique
 
 
-def in_scope(scope, func):
+def in_scope(scope, func, path=''):
+    """scope entries: fnmatch patterns on the qualified function name, 'file:<path>' entries on the file, '!pat' excludes"""
     if scope is None:
         return True
     pos = [p for p in scope if not p.startswith('!')]
     neg = [p[1:] for p in scope if p.startswith('!')]
     if any(fnmatch.fnmatchcase(func, p) for p in neg):
         return False
-    return not pos or any(fnmatch.fnmatchcase(func, p) for p in pos)
+    if not pos:
+        return True
+    for p in pos:
+        if p.startswith('file:'):
+            if path == p[5:]:
+                return True
+        elif fnmatch.fnmatchcase(func, p):
+            return True
+    return False
+
+
+def _anchor_files():
+    import json
+    import os
+    out = {}
+    fn = os.path.join(os.path.dirname(os.path.dirname(os.path.abspath(__file__))), 'properties.jsonl')
+    for line in open(fn):
+        line = line.strip()
+        if line:
+            d = json.loads(line)
+            out[d['id']] = ['file:' + f for f in d.get('anchors', {}).get('files', [])]
+    return out
+
+
+ANCHOR_FILES = _anchor_files()
+
+
+def generic(pid, *names):
+    """generic flow rules, restricted to the files the property is anchored in (properties.jsonl: anchors.files)"""
+    return [(n, ANCHOR_FILES[pid]) for n in names]
 
 
 NETWORK = ['Traph.get_webentities_*']
@@ -47,33 +77,48 @@ WE_FILTERS = ['Traph.get_webentity_pagelinks_iter', 'Traph.paginate_webentity_pa
 # rule groups: necessary conditions shared by several properties
 TRIE = ['R-FRESH', 'R-DIRTY-WRITTEN', 'R-BST-AGREE', 'R-PARENT-PAIR', 'R-TAIL-PROTOCOL', 'R-READ-RESETS', 'R-CHUNK-LAST', 'R-LRU-ASSEMBLY'] + MONO
 LINKS = ['R-LINK-PAIR', 'R-HEAD-REPOINT', 'R-LINK-WALK', 'R-DIRECTION', 'R-NO-EARLY-EXIT']
-RESOLVE = ['R-TRACK-AGREE', 'R-OWN-ERROR', 'R-NO-STALE-CACHE', 'R-LRU-ASSEMBLY']
+RESOLVE = ['R-TRACK-AGREE', 'R-OWN-ERROR', 'R-NO-STALE-CACHE', 'R-LRU-ASSEMBLY', 'R-NEAREST-WE']
 WALK = ['R-RELEVANCE', 'R-STACK-BLOCKS', 'R-EVERY-PREFIX', 'R-NO-EARLY-EXIT']
 
+READ_BASICS = ['R-TAIL-PROTOCOL', 'R-READ-RESETS', 'R-BST-AGREE', 'R-PRIMITIVES']
+
+
+def G(pid):
+    return generic(pid, 'R-LOOP-CARRIED', 'R-ENCODED', 'R-NULL-THRESHOLD')
+
+
 RULESETS = {
- 'C01': TRIE + ['R-CRAWLED', 'R-PAGE-REPORT', 'R-READONLY', 'R-ARGS-HONOURED', 'R-ENUM-FILTERS', 'R-ALLOC'],
- 'C02': TRIE + ['R-GEOMETRY', 'R-ACCESSOR-TABLE', 'R-STORAGE-IFACE', 'R-STORAGE-SEM'],
- 'C03': LINKS + ['R-ACCESSOR-TABLE', ('R-FILTER-AGREE', ['Traph.get_page_links']), 'R-FRESH', 'R-DIRTY-WRITTEN', ('R-NULL-HEAD', PAGE_LINKS), 'R-ARGS-HONOURED'],
- 'C04': RESOLVE + ['R-BST-AGREE', 'R-TAIL-PROTOCOL', 'R-READ-RESETS', 'R-WE-ATTACH', 'R-DIRTY-WRITTEN', 'R-ARGS-HONOURED', 'R-PREFIX-EDIT', 'R-REFUSE-CLEAN'],
- 'C05': WALK + RESOLVE + ['R-READ-RESETS', 'R-TAIL-PROTOCOL', 'R-ENUM-FILTERS', 'R-BST-AGREE'],
- 'C06': ['R-LADDER-AGREE', 'R-TRACK-AGREE', 'R-RULES-TO-APPLY', 'R-ID', 'R-RULE-INSTALL', 'R-WE-ATTACH', 'R-VARIATIONS', 'R-BST-AGREE'],
- 'C07': ['R-PROPAGATE', ('R-FILTER-AGREE', NETWORK), ('R-MEMO-KEY', NETWORK), ('R-NULL-HEAD', NETWORK), 'R-NO-STALE-CACHE', 'R-LRU-ASSEMBLY'] + LINKS,
+ 'C01': TRIE + ['R-CRAWLED', 'R-PAGE-REPORT', 'R-READONLY', 'R-ARGS-HONOURED', 'R-ENUM-FILTERS', 'R-ALLOC', 'R-GEOMETRY', 'R-LINK-PAIR', 'R-PRIMITIVES'] + G('C01'),
+ 'C02': TRIE + ['R-GEOMETRY', 'R-ACCESSOR-TABLE', 'R-STORAGE-IFACE', 'R-STORAGE-SEM', 'R-STORAGE-STATELESS', 'R-PRIMITIVES'] + G('C02'),
+ 'C03': LINKS + ['R-ACCESSOR-TABLE', ('R-FILTER-AGREE', ['Traph.get_page_links']), 'R-FRESH', 'R-DIRTY-WRITTEN', ('R-NULL-HEAD', PAGE_LINKS), 'R-ARGS-HONOURED', 'R-DEGREE-FLAGS',
+         'R-PRIMITIVES'] + G('C03'),
+ 'C04': RESOLVE + ['R-BST-AGREE', 'R-TAIL-PROTOCOL', 'R-READ-RESETS', 'R-WE-ATTACH', 'R-FRESH', 'R-DIRTY-WRITTEN', 'R-ARGS-HONOURED', 'R-PREFIX-EDIT', 'R-REFUSE-CLEAN',
+                   'R-LADDER-AGREE', 'R-PRIMITIVES'] + G('C04'),
+ 'C05': WALK + RESOLVE + ['R-READ-RESETS', 'R-TAIL-PROTOCOL', 'R-ENUM-FILTERS', 'R-BST-AGREE', 'R-ACCUMULATE', 'R-PRIMITIVES'] + G('C05'),
+ 'C06': ['R-LADDER-AGREE', 'R-TRACK-AGREE', 'R-RULES-TO-APPLY', 'R-ID', 'R-RULE-INSTALL', 'R-WE-ATTACH', 'R-VARIATIONS', 'R-BST-AGREE', 'R-SKIP-CHILDLESS', 'R-PREFIX-EDIT',
+         'R-FRESH', 'R-DIRTY-WRITTEN', 'R-PRIMITIVES'] + G('C06'),
+ 'C07': ['R-PROPAGATE', ('R-FILTER-AGREE', NETWORK), ('R-MEMO-KEY', NETWORK), ('R-NULL-HEAD', NETWORK), 'R-NO-STALE-CACHE', 'R-LRU-ASSEMBLY', 'R-ARGS-HONOURED', 'R-NEAREST-WE',
+         ('R-ACCUMULATE', NETWORK)] + LINKS + READ_BASICS + G('C07'),
  'C08': [('R-NULL-HEAD', WE_LINKS), ('R-FILTER-AGREE', WE_FILTERS), ('R-MEMO-KEY', ['!Traph.get_webentities_*']), 'R-NO-STALE-CACHE', 'R-DISTINCT-DEGREE',
-         'R-LRU-ASSEMBLY', 'R-ARGS-HONOURED'] + WALK + LINKS,
- 'C09': [('R-TOKEN-PAIR', ['Traph.paginate_webentity_pages']), 'R-TOKEN-CODEC', 'R-ORDER', ('R-PAGINATE', ['Traph.paginate_webentity_pages'])] + WALK + MONO,
+         'R-LRU-ASSEMBLY', 'R-ARGS-HONOURED', 'R-FRESH', 'R-DIRTY-WRITTEN', 'R-NEAREST-WE', ('R-ACCUMULATE', ['Traph.get_webentity_*'])] + WALK + LINKS + READ_BASICS + G('C08'),
+ 'C09': [('R-TOKEN-PAIR', ['Traph.paginate_webentity_pages']), 'R-TOKEN-CODEC', 'R-ORDER', ('R-PAGINATE', ['Traph.paginate_webentity_pages'])] + WALK + MONO + READ_BASICS + G('C09'),
  'C10': [('R-TOKEN-PAIR', PAGELINK_PAGING), ('R-FILTER-AGREE', WE_FILTERS), ('R-MEMO-KEY', WE_FILTERS), ('R-NULL-HEAD', PAGELINK_PAGING), 'R-TOKEN-CODEC', 'R-ORDER',
-         ('R-PAGINATE', PAGELINK_PAGING), 'R-RELEVANCE', 'R-EVERY-PREFIX', 'R-NO-EARLY-EXIT', 'R-LINK-WALK'],
- 'C11': ['R-OPEN-TABLE', 'R-CLEAR-AGREE', 'R-GEOMETRY', 'R-ID', 'R-DIRTY-WRITTEN', 'R-STORAGE-SEM', 'R-STORAGE-IFACE', 'R-RULE-INSTALL'],
- 'C12': ['R-ID', 'R-DIRTY-WRITTEN', 'R-STORAGE-IFACE', 'R-STORAGE-SEM', 'R-REFUSE-CLEAN'],
- 'C13': ['R-WE-ATTACH', 'R-ANCESTOR-FLAG', 'R-SKIP-CHILDLESS', 'R-HIERARCHY', 'R-FRESH', 'R-DIRTY-WRITTEN', 'R-EVERY-PREFIX', 'R-ARGS-HONOURED', 'R-NO-EARLY-EXIT'] + MONO,
+         ('R-PAGINATE', PAGELINK_PAGING), 'R-RELEVANCE', 'R-EVERY-PREFIX', 'R-NO-EARLY-EXIT', 'R-LINK-WALK', 'R-NEAREST-WE', ('R-ACCUMULATE', WE_FILTERS)] + READ_BASICS + G('C10'),
+ 'C11': ['R-OPEN-TABLE', 'R-CLEAR-AGREE', 'R-GEOMETRY', 'R-ID', 'R-DIRTY-WRITTEN', 'R-STORAGE-SEM', 'R-STORAGE-IFACE', 'R-RULE-INSTALL', 'R-CLOSE', 'R-STORAGE-STATELESS',
+         'R-PRIMITIVES'] + G('C11'),
+ 'C12': ['R-ID', 'R-DIRTY-WRITTEN', 'R-STORAGE-IFACE', 'R-STORAGE-SEM', 'R-REFUSE-CLEAN', 'R-PRIMITIVES', 'R-PREFIX-EDIT', 'R-STORAGE-STATELESS'] + G('C12'),
+ 'C13': ['R-WE-ATTACH', 'R-ANCESTOR-FLAG', 'R-SKIP-CHILDLESS', 'R-HIERARCHY', 'R-FRESH', 'R-DIRTY-WRITTEN', 'R-EVERY-PREFIX', 'R-ARGS-HONOURED', 'R-NO-EARLY-EXIT',
+         'R-PRIMITIVES', 'R-NEAREST-WE', ('R-ACCUMULATE', ['Traph.get_webentity_child_webentities_iter'])] + MONO + G('C13'),
  'C14': ['R-READONLY', 'R-WRITE-API'],
- 'C15': ['R-STORAGE-IFACE', 'R-STORAGE-SEM', 'R-OPEN-TABLE', 'R-CLEAR-AGREE', 'R-READ-RESETS'],
- 'C16': ['R-FRESH', 'R-DIRTY-WRITTEN', 'R-STACK-BLOCKS', 'R-NO-STALE-CACHE', ('R-FILTER-AGREE', NETWORK), ('R-MEMO-KEY', NETWORK), 'R-DIRECTION', 'R-LINK-PAIR'],
- 'C17': ['R-VARIATIONS', 'R-LADDER-AGREE', 'R-ID', 'R-NO-STALE-CACHE'],
- 'C18': ['R-OPEN-TABLE', 'R-POINTEE-FIRST', 'R-GEOMETRY', 'R-NONE-CHECK', 'R-STORAGE-IFACE', 'R-HEAD-REPOINT', 'R-FRESH', 'R-DIRTY-WRITTEN', 'R-TAIL-PROTOCOL'],
+ 'C15': ['R-STORAGE-IFACE', 'R-STORAGE-SEM', 'R-OPEN-TABLE', 'R-CLEAR-AGREE', 'R-READ-RESETS', 'R-STORAGE-STATELESS'] + G('C15'),
+ 'C16': ['R-FRESH', 'R-DIRTY-WRITTEN', 'R-STACK-BLOCKS', 'R-NO-STALE-CACHE', ('R-FILTER-AGREE', NETWORK), ('R-MEMO-KEY', NETWORK), 'R-DIRECTION', 'R-LINK-PAIR',
+         'R-PRIMITIVES', 'R-READ-RESETS', 'R-ACCUMULATE'] + G('C16'),
+ 'C17': ['R-VARIATIONS', 'R-LADDER-AGREE', 'R-ID', 'R-NO-STALE-CACHE'] + G('C17'),
+ 'C18': ['R-OPEN-TABLE', 'R-POINTEE-FIRST', 'R-GEOMETRY', 'R-NONE-CHECK', 'R-STORAGE-IFACE', 'R-HEAD-REPOINT', 'R-FRESH', 'R-DIRTY-WRITTEN', 'R-TAIL-PROTOCOL',
+         'R-STORAGE-STATELESS', 'R-PRIMITIVES', 'R-CLOSE'] + G('C18'),
  'C19': ['R-CHUNK-LAST', 'R-ALLOC', 'R-GEOMETRY', 'R-METRICS', 'R-HEAD-REPOINT', 'R-LINK-PAIR', 'R-LINK-WALK', 'R-FRESH', 'R-DIRTY-WRITTEN', 'R-TAIL-PROTOCOL', 'R-READ-RESETS',
-         'R-BST-AGREE', 'R-STORAGE-SEM'],
- 'C20': [('R-NULL-HEAD', MOST_LINKED), 'R-DISTINCT-DEGREE', 'R-TOPK', 'R-LINK-PAIR', 'R-LINK-WALK', 'R-HEAD-REPOINT'] + WALK,
+         'R-BST-AGREE', 'R-STORAGE-SEM', 'R-STORAGE-STATELESS', 'R-PRIMITIVES'] + G('C19'),
+ 'C20': [('R-NULL-HEAD', MOST_LINKED), 'R-DISTINCT-DEGREE', 'R-TOPK', 'R-LINK-PAIR', 'R-LINK-WALK', 'R-HEAD-REPOINT', ('R-ACCUMULATE', MOST_LINKED)] + WALK + READ_BASICS + G('C20'),
 }
 
 TEXTS = {'C01': {'claim': 'no stale write-back, no lost flag update, page/crawled marks monotone, structural pointers append-only and pointee-first paired, one strict '
@@ -222,6 +267,12 @@ def _dedupe(rules):
     return out
 
 
+GENERIC_TEXT = (' Generic flow rules restricted to the files the property is anchored in: a local bound only inside a loop is bound in the '
+                'current iteration before use (must-assign dataflow), request LRUs reach the trie only through __encode (taint dataflow), pointer '
+                'accessors treat as NULL only blocks below the first data block of the pointed store; where listed, the persistence primitives '
+                '(refresh/read/write) reach their storage call on every path (must-pass-through).')
+
 for _pid, _rules in RULESETS.items():
     _t = TEXTS[_pid]
-    prop(_pid, _dedupe(_rules), _t['explanation'], _t['claim'], _t['not_decided'])
+    _has_generic = any(not isinstance(r, str) and r[0] == 'R-LOOP-CARRIED' for r in _rules)
+    prop(_pid, _dedupe(_rules), _t['explanation'] + (GENERIC_TEXT if _has_generic else ''), _t['claim'], _t['not_decided'])
